@@ -25,8 +25,8 @@ import (
 // the property is decided again on the view with the new helpers inlined, and
 // that verdict is taken only if every obligation holds there.
 var (
-	TransparentOn bool
-	Baseline      map[string]bool // full names of the private functions of the confirmed tree
+	TransparentOn   bool
+	Baseline        map[string]bool // full names of the private functions of the confirmed tree
 	usedTransparent = map[string]bool{}
 )
 
